@@ -626,6 +626,131 @@ def c12_state_indexing(prog: Program, fr: Frame, run: Run) -> None:
                       "failed lookup", loc(fr.f, fr.idx_stmt))
 
 
+def c12_id_tables(prog: Program, run: Run) -> None:
+    """R2 (continued): the telegram index is the POSITION of the receive ID in the caller's list
+    (IsoTpActiveDecoder pairs _can_tx_ids[i] with it), so the ID tables must be stored in the
+    caller's order, without sorting or de-duplication."""
+    R = "C12.R2"
+    n = 0
+    for cname in ("IsoTpStateMachine", "IsoTpActiveDecoder"):
+        f = prog.func(f"{cname}.__init__")
+        params = set(f.params())
+        for x in walk_no_nested(f.node):
+            if not isinstance(x, ast.Assign):
+                continue
+            for t in x.targets:
+                if isinstance(t, ast.Attribute) and t.attr in ("_can_rx_ids", "_can_tx_ids") and \
+                        isinstance(t.value, ast.Name) and t.value.id == "self":
+                    n += 1
+                    v = x.value
+                    if isinstance(v, ast.Name) and v.id in params:
+                        run.ok(R, f.qual, f"{t.attr} is the caller's list, in the caller's order",
+                               loc(f, x))
+                    else:
+                        run.violation(R, f.qual, f"id-table-{t.attr}",
+                                      f"`{stmt_key(x)}`: the telegram index is the position in "
+                                      "the caller's ID list (the active decoder answers on "
+                                      "_can_tx_ids[index]); storing anything but the list as "
+                                      "given re-numbers the telegrams", loc(f, x), stmt_key(x))
+    if n < 2:
+        run.error(R, "assignments to _can_rx_ids / _can_tx_ids not found in the constructors")
+
+
+def c13_callbacks(prog: Program, run: Run) -> None:
+    """R1 (continued): the callbacks decode_rx_frame invokes (on_* of every subclass in the
+    package) cannot raise on stray frames: no assert, and every Optional per-ID state value is
+    used in arithmetic / ordering only under a None test that branches (not an assert)."""
+    R = "C13.R1"
+    base = prog.cls("IsoTpStateMachine")
+    n = 0
+    for ci in prog.subclasses(base, strict=True):
+        for f in ci.methods.values():
+            if not f.name.startswith("on_"):
+                continue
+            cfg = CFG(f.node)
+            for x in walk_no_nested(f.node):
+                if isinstance(x, ast.Assert):
+                    n += 1
+                    run.violation(R, f.qual, "assert-in-callback",
+                                  f"`{stmt_key(x)}`: an assert in a frame callback turns a stray "
+                                  "or duplicated frame into an AssertionError out of "
+                                  "decode_rx_frame", loc(f, x), stmt_key(x))
+            # locals holding an Optional state element
+            opt: Dict[str, str] = {}
+            for x in walk_no_nested(f.node):
+                if isinstance(x, ast.Assign) and len(x.targets) == 1 and isinstance(
+                        x.targets[0], ast.Name) and isinstance(x.value, ast.Subscript) and \
+                        isinstance(x.value.value, ast.Attribute) and \
+                        x.value.value.attr in ACTIVE_STATE:
+                    opt[x.targets[0].id] = x.value.value.attr
+            for node in cfg.nodes:
+                if node.stmt is None:
+                    continue
+                scope = node.expr if node.kind in ("if", "while") else node.stmt
+                if scope is None or isinstance(scope, ast.Assert):
+                    continue
+                for y in ast.walk(scope):
+                    names: List[ast.Name] = []
+                    if isinstance(y, ast.BinOp):
+                        names = [z for z in (y.left, y.right) if isinstance(z, ast.Name)]
+                    elif isinstance(y, ast.Compare) and any(
+                            isinstance(o, (ast.Lt, ast.LtE, ast.Gt, ast.GtE)) for o in y.ops):
+                        names = [z for z in [y.left] + list(y.comparators)
+                                 if isinstance(z, ast.Name)]
+                    for nm in names:
+                        if nm.id not in opt:
+                            continue
+                        n += 1
+                        if _none_guarded(cfg, node, scope, y, nm.id):
+                            run.ok(R, f.qual, f"`{ast.unparse(y)}`: {nm.id} "
+                                   f"(= {opt[nm.id]}[i]) is used under a None test",
+                                   loc(f, node.stmt))
+                        else:
+                            run.violation(R, f.qual, f"optional-state-{nm.id}",
+                                          f"`{ast.unparse(y)}` uses {nm.id} (= self."
+                                          f"{opt[nm.id]}[i], None while no transfer is in "
+                                          "progress) without a branching None test: a "
+                                          "consecutive frame that arrives in that state raises "
+                                          "out of decode_rx_frame", loc(f, node.stmt),
+                                          stmt_key(node.stmt))
+    if n < 2:
+        run.error(R, "no Optional per-ID state uses found in the on_* callbacks (anchor moved)")
+
+
+def _is_none_test(t: ast.AST, name: str) -> Optional[bool]:
+    """True: `name is not None`; False: `name is None`; None: something else."""
+    if isinstance(t, ast.Compare) and len(t.ops) == 1 and isinstance(t.left, ast.Name) and \
+            t.left.id == name and isinstance(t.comparators[0], ast.Constant) and \
+            t.comparators[0].value is None:
+        if isinstance(t.ops[0], ast.IsNot):
+            return True
+        if isinstance(t.ops[0], ast.Is):
+            return False
+    return None
+
+
+def _none_guarded(cfg: CFG, node, scope: ast.AST, use: ast.AST, name: str) -> bool:
+    for test, pol in cfg.branch_conditions(node.id):
+        conj = test.values if isinstance(test, ast.BoolOp) and isinstance(test.op, ast.And) and \
+            pol else [test]
+        for c in conj:
+            r = _is_none_test(c, name)
+            if r is not None and r == pol:
+                return True
+        if isinstance(test, ast.BoolOp) and isinstance(test.op, ast.Or) and not pol:
+            for c in test.values:
+                if _is_none_test(c, name) is False:
+                    return True
+    # same expression: `name is not None and <use>`
+    for b in ast.walk(scope):
+        if isinstance(b, ast.BoolOp) and isinstance(b.op, ast.And):
+            for i, v in enumerate(b.values):
+                if any(z is use for z in ast.walk(v)):
+                    if any(_is_none_test(w, name) is True for w in b.values[:i]):
+                        return True
+    return False
+
+
 def c12_log_regex(prog: Program, run: Run) -> None:
     R = "C12.R3"
     import re._parser as sre  # type: ignore
